@@ -135,6 +135,8 @@ def sandbox():
     """Fresh cwd + FORML_HOME outside /repo and /verif (importing forml drops log files / reads config)."""
     tmp = tempfile.mkdtemp(prefix='verif-run-')
     os.environ['FORML_HOME'] = tmp
+    os.environ['TMPDIR'] = tmp          # forml's own temp dirs (asset.TMPDIR) and everything else land inside the sandbox
+    tempfile.tempdir = tmp
     os.environ.setdefault('PYTHONHASHSEED', '0')
     os.chdir(tmp)
     atexit.register(shutil.rmtree, tmp, True)
